@@ -41,6 +41,34 @@ theorem C10_dest (lines n : List Str) :
     exact headerOnly_last lines hh
   · exact Or.inr ⟨hb, he, ha⟩
 
+/-- **No character of the destination is lost**: the only line `add_note` ever takes away is an EMPTY line (`""`),
+never a line of spaces — such a line is a continuation line of the note above it (repair a9: before it, a
+whitespace-only line inside the destination's last note was replaced by the moved note and the rest of that note
+was cut off).  So the destination's lines are all kept, in order, except for at most one empty line whose place the
+note takes. -/
+theorem C10_dest_only_empty_line_replaced (lines n : List Str) :
+    let k := (insertionIndex lines).1
+    (lines.take (k + 1) <+: addNote lines n ∧ k + 1 ≥ lines.length) ∨
+    (lines.getD k [] = [] ∧ addNote lines n = lines.take k ++ n ++ lines.drop (k + 1)) := by
+  intro k
+  rcases (C10_dest lines n).2.2 with ⟨hp, _, hl⟩ | ⟨hb, he, _⟩
+  · exact Or.inl ⟨hp, hl⟩
+  · refine Or.inr ⟨?_, he⟩
+    simpa [isBlankLine, List.isEmpty_iff] using hb
+
+/-- the page of the repaired defect: the last note of the destination has an indented blank line; the moved note
+goes after the whole note (the page does not end with a newline here), nothing is cut off -/
+example :
+    addNote ["- 240101#00 first line".toList, "  ".toList, "  second para".toList] ["- 240102#00 mover".toList, []] =
+      ["- 240101#00 first line".toList, "  ".toList, "  second para".toList, "- 240102#00 mover".toList, []] := by
+  decide +kernel
+
+/-- and with a trailing newline the note takes the place of the final empty line -/
+example :
+    addNote ["- 240101#00 first line".toList, "  ".toList, "  second para".toList, []] ["- 240102#00 mover".toList, []] =
+      ["- 240101#00 first line".toList, "  ".toList, "  second para".toList, "- 240102#00 mover".toList, []] := by
+  decide +kernel
+
 /-! ## The moved note carries its inherited metadata explicitly
 Model: `Model/Move.lean` — `_add_hidden_metadata` (every tag the index knows for the note and that is no word of
 its body, every property whose `key::` does not occur in the body, inserted after the ZID) and the text handed
